@@ -586,6 +586,8 @@ RN = 'xdoctest/runner.py'
 DE = 'xdoctest/doctest_example.py'
 MA = 'xdoctest/__main__.py'
 VARIANTS = [
+    silent('item-construction-extracted-into-a-method', (PL, "        for dtest in examples:\n            dtest.config.update(self._examp_conf)\n            name = dtest.unique_callname\n            if hasattr(XDoctestItem, 'from_parent'):\n                yield XDoctestItem.from_parent(\n                    self, name=name, dtest=dtest)\n            else:\n                # direct construction is deprecated\n                yield XDoctestItem(name, self, dtest=dtest)\n", "        for dtest in examples:\n            yield self._new_item(dtest.unique_callname, dtest)\n\n    def _new_item(self, name, dtest):\n        dtest.config.update(self._examp_conf)\n        if hasattr(XDoctestItem, 'from_parent'):\n            return XDoctestItem.from_parent(self, name=name, dtest=dtest)\n        return XDoctestItem(name, self, dtest=dtest)\n")),
+    fire('item-construction-extracted-without-the-config', 'C15.R2', (PL, "        for dtest in examples:\n            dtest.config.update(self._examp_conf)\n            name = dtest.unique_callname\n            if hasattr(XDoctestItem, 'from_parent'):\n                yield XDoctestItem.from_parent(\n                    self, name=name, dtest=dtest)\n            else:\n                # direct construction is deprecated\n                yield XDoctestItem(name, self, dtest=dtest)\n", "        for dtest in examples:\n            yield self._new_item(dtest.unique_callname, dtest)\n\n    def _new_item(self, name, dtest):\n        if hasattr(XDoctestItem, 'from_parent'):\n            return XDoctestItem.from_parent(self, name=name, dtest=dtest)\n        return XDoctestItem(name, self, dtest=dtest)\n")),
     fire('plugin-default-verbosity-suppresses-the-stream', 'C15.R9', (PL, "        defaults=dict(verbose=2)\n", "        defaults=dict(verbose=1)\n")),
     silent('plugin-default-verbosity-three', (PL, "        defaults=dict(verbose=2)\n", "        defaults=dict(verbose=3)\n")),
     fire('suppression-threshold-moved', 'C15.R9', (DE, "        self._suppressed_stdout = verbose <= 1\n", "        self._suppressed_stdout = verbose <= 2\n")),
